@@ -779,6 +779,7 @@ def run(ctx):
     precond_reasons = {}
     excused = {}
     excused_examples = {}
+    excused_corpus = {}
     excused_programs = 0
     mismatch_total = {}
     viol_seen = {}
@@ -815,6 +816,11 @@ def run(ctx):
                 stats["nontrivial"] += 1
             if o["excused"]:
                 excused_programs += 1
+                fs["excused_programs"] = fs.get("excused_programs", 0) + 1
+                fs["excused_nodes"] = fs.get("excused_nodes", 0) + len(o["excused"])
+                if fam == "file":
+                    for construct, line in o["excused"]:
+                        excused_corpus[construct] = excused_corpus.get(construct, 0) + 1
             for construct, line in o["excused"]:
                 excused[construct] = excused.get(construct, 0) + 1
                 ex = excused_examples.setdefault(construct, [])
@@ -884,6 +890,7 @@ def run(ctx):
         not_valid_python_or_skipped=stats["not_python"],
         excluded_scenic_syntax={k: {"nodes": v, "examples": excused_examples[k]} for k, v in sorted(excused.items())},
         excluded_scenic_syntax_programs=excused_programs,
+        excluded_scenic_syntax_in_corpus=dict(sorted(excused_corpus.items())),
         mismatching_nodes_by_kind=dict(sorted(mismatch_total.items())),
         violating_programs=stats["violating"],
         violations_by_signature=dict(sorted(viol_seen.items())),
